@@ -25,7 +25,7 @@ RULE = ("fault placements: (site kind: raising watcher on set / on batch flush /
         "(callbacks may raise a custom exception, ValueError, TypeError or KeyError; watchers of Parameter attributes and assignments to them are included; after a fault caught inside an open edit_constant block a constant must still be assignable there) and sequences of up to three faults. Oracle = the same probe (fresh watchers, same-value set, changing set, batch, "
         "trigger, Event set, update, constant flags) on the faulted object and on a freshly built twin, traces compared; plus "
         "silence inside a surrounding batch after a caught fault. Non-trivial = the fault strikes while an event is queued, "
-        "or inside an enclosing context, or during trigger, or with an Event key among the update keys; distinct = case hash.")
+        "or inside an enclosing context, or during trigger, or with an Event key among the update keys; distinct = case hash. Round-4 additions: a callback failure that is a BaseException, a value rejected AT an Event key, watch() given an unknown name after a valid one, queued watchers that assign without failing before a later watcher fails (enumerated for set / update / trigger x exception class x nesting), and a side scenario in which leaving an update() context over a linked parameter fails while the link is put back.")
 ASSUMPTIONS = [
     "twin = new instance of a fresh identical class given the same values, watchers re-registered in the same order",
     "callbacks do not assign, except that a callback scheduled to raise may first assign one other parameter (acyclic); faults are disarmed while probing",
